@@ -28,12 +28,12 @@ structure PreOpen (sl : List (Nat × List Nat)) (n nf : Nat) (fs : FS) : Prop wh
   ids : flat sl = List.range nf
 
 /-- what the property asks of the directory `fs` found by a restart: `nf` flushes had completed, `extra` is
-the flush in progress (if any), `lost` = the crash hit the WriteSfm window -/
-structure Good (nf : Nat) (extra : Option Nat) (lost : Bool) (fs : FS) : Prop where
+the flush in progress (if any) -/
+structure Good (nf : Nat) (extra : Option Nat) (fs : FS) : Prop where
   nodup : (visible fs).Nodup
   torn : torn fs = []
   sound : ∀ f ∈ visible fs, f < nf ∨ extra = some f
-  complete : lost = false → ∀ f, f < nf → f ∈ visible fs
+  complete : ∀ f, f < nf → f ∈ visible fs
   fresh : ∀ s ∈ fs.dirs, s < nextSuffix fs
   untouched : ∀ s, s ∉ fs.dirs → fs.seg s = {}
 
@@ -42,9 +42,9 @@ theorem nodup_prefix_of_range {a b : List Nat} {n : Nat} (h : a ++ b = List.rang
   exact (List.nodup_append.1 this).1
 
 /-- the open segment is not adopted: only the sealed segments are served -/
-theorem good_a {sl cur fs nf extra lost} {fls : List Nat} (F : Frame sl cur fs)
+theorem good_a {sl cur fs nf extra} {fls : List Nat} (F : Frame sl cur fs)
     (hno : ¬ (cur ∈ fs.dirs ∧ (fs.seg cur).sfm.parsable = true))
-    (ids : flat sl ++ fls = List.range nf) (hl : lost = false → fls = []) : Good nf extra lost fs := by
+    (ids : flat sl ++ fls = List.range nf) (hl : fls = []) : Good nf extra fs := by
   have hv : visible fs = flat sl := by rw [visible_frame F, if_neg hno]; simp [flat]
   have ht : torn fs = [] := by rw [torn_frame F, if_neg hno]
   refine ⟨?_, ht, ?_, ?_, F.suffix_ok, F.untouched⟩
@@ -53,18 +53,17 @@ theorem good_a {sl cur fs nf extra lost} {fls : List Nat} (F : Frame sl cur fs)
     rw [hv] at hf
     have : f ∈ List.range nf := ids ▸ List.mem_append_left _ hf
     exact Or.inl (List.mem_range.1 this)
-  · intro h f hf
-    have e := hl h
-    subst e
+  · intro f hf
+    subst hl
     rw [hv]
     have : f ∈ flat sl ++ [] := ids ▸ List.mem_range.2 hf
     simpa using this
 
 /-- the open segment is adopted and serves `X` = its earlier blocks, possibly with the block in progress -/
-theorem good_b {sl cur fs nf extra lost} {fls X : List Nat} (F : Frame sl cur fs)
+theorem good_b {sl cur fs nf extra} {fls X : List Nat} (F : Frame sl cur fs)
     (hin : cur ∈ fs.dirs) (hp : (fs.seg cur).sfm.parsable = true) (hok : SegOK (fs.seg cur) X)
     (ids : flat sl ++ fls = List.range nf) (hX : X = fls ∨ (X = fls ++ [nf] ∧ extra = some nf)) :
-    Good nf extra lost fs := by
+    Good nf extra fs := by
   have hv : visible fs = flat sl ++ X := by
     rw [visible_frame F, if_pos ⟨hin, hp⟩, segOK_visible hok]; rfl
   have ht : torn fs = [] := by rw [torn_frame F, if_pos ⟨hin, hp⟩, segOK_torn hok]
@@ -82,7 +81,7 @@ theorem good_b {sl cur fs nf extra lost} {fls X : List Nat} (F : Frame sl cur fs
       · exact Or.inl (List.mem_range.1 h)
       · have : f = nf := by simpa using h
         exact Or.inr (this ▸ he)
-  · intro _ f hf
+  · intro f hf
     rw [hv]
     have hm : f ∈ flat sl ++ fls := ids ▸ List.mem_range.2 hf
     rcases hX with e | ⟨e, _⟩
@@ -96,6 +95,8 @@ def applySeg (st : SegSt) : Step → SegSt
   | .bsu _ f ws => { st with bsu := st.bsu ++ [(f, ws)] }
   | .sstTmp _ fls => { st with sstTmp := some fls }
   | .sstRename _ => { st with sst := (st.sstTmp <|> st.sst), sstTmp := none }
+  | .sfmTmp _ fls => { st with sfmTmp := some fls }
+  | .sfmRename _ => { st with sfm := (st.sfmTmp.map Sfm.json).getD st.sfm, sfmTmp := none }
   | .sfmTrunc _ => { st with sfm := .empty }
   | .sfmWrite _ fls => { st with sfm := .json fls }
   | _ => st
